@@ -291,8 +291,12 @@ Converges == <>[]Quiescent
 (* model: the code must treat the spellings alike and ignore the legacy record.                          *)
 Sp(type, fam, pol, share, ports, etp, sel, reqIPs, reqPool) ==
   [type |-> type, fam |-> fam, pol |-> pol, v6first |-> FALSE, cips |-> TRUE, share |-> share, ports |-> ports,
-   etp |-> etp, sel |-> sel, reqIPs |-> reqIPs, reqPool |-> reqPool, dep |-> FALSE, legacy |-> "", bad |-> FALSE]
+   etp |-> etp, sel |-> sel, reqIPs |-> reqIPs, reqPool |-> reqPool, dep |-> FALSE, legacy |-> "", bad |-> FALSE,
+   blank |-> FALSE]
 Bad(sp) == [sp EXCEPT !.bad = TRUE]
+(* the stable allow-shared-ip annotation is present and empty (sharing switched off) next to a    *)
+(* left-over deprecated one that carries "k1": a present stable annotation is the one that counts *)
+BlankStable(sp) == [sp EXCEPT !.blank = TRUE]
 V6First(sp) == [sp EXCEPT !.v6first = TRUE]
 Dep(sp) == [sp EXCEPT !.dep = TRUE]
 Legacy(sp, pn) == [sp EXCEPT !.legacy = pn]
@@ -308,6 +312,7 @@ SpecsShare(s) ==
          Sp("LB", "v4", "S", "k1", {"udp80"}, "Cluster", "x", <<>>, ""),
          \* Local policy with a two-label selector (identical for every Service): port differs per Service
          Sp("LB", "v4", "S", "k1", IF s = "s1" THEN {"tcp80"} ELSE {"tcp443"}, "Local", "x+z", <<>>, ""),
+         BlankStable(Sp("LB", "v4", "S", "", {"tcp443"}, "Cluster", "x", <<>>, "")),
          Sp("CIP", "v4", "S", "", {"tcp80"}, "Cluster", "x", <<>>, "") }
 (* requests: explicit addresses / pool *)
 SpecsReq(s) ==
@@ -319,6 +324,12 @@ SpecsReq(s) ==
     Bad(Plain),
     Sp("LB", "v4", "S", "k1", {"tcp80"}, "Cluster", "x", <<>>, ""),
     Dep(Sp("LB", "v4", "S", "k1", {"tcp443"}, "Cluster", "x", <<>>, "")) }
+(* a Service that holds an address asks for a pool that is already full (p2 of TwoPlus has one    *)
+(* address), while a third Service waits for whatever becomes free                                *)
+SpecsReqFull(s) ==
+  IF s = "s2" THEN { Sp("LB", "v4", "S", "", {"tcp80"}, "Cluster", "x", <<>>, "p2") }
+  ELSE IF s = "s1" THEN { Plain, Sp("LB", "v4", "S", "", {"tcp80"}, "Cluster", "x", <<>>, "p2") }
+  ELSE { Plain }
 (* sharing among Local-policy Services (identical one- and two-label selectors, a different selector, Cluster) *)
 SpecsLocalShare(s) ==
   LET pt == IF s = "s1" THEN {"tcp80"} ELSE {"tcp443"} IN
